@@ -1,6 +1,8 @@
 import CardVerif.Proofs.BettingInv
 import CardVerif.Proofs.Closure
 import CardVerif.Proofs.Accept
+import CardVerif.Proofs.Protocol
+import CardModel.Spec.RankTotalOn
 import Mathlib.Data.List.Nodup
 import Mathlib.Data.List.Perm.Basic
 /-!
@@ -10,6 +12,10 @@ import Mathlib.Data.List.Perm.Basic
 * §2 settlement never fails on a usable ranking (`settleShowdown_total`), lengths without any sign hypothesis;
 * §3 the invariant `Mid` of the states `advance_action` goes through, and totality of each of its steps;
 * §4 the strengthened invariant `Inv2` of reachable states.
+
+The evaluator is only required to succeed on distinct valid cards (`RankTotalOn`): a game whose cards are dealt from
+one deck (`Cfg.Dealt`) keeps `board ++ deck` equal to the configured cards (`CardsOf`), and a run-out takes distinct
+cards of the deck, so the evaluator only ever sees such cards.  The statements with `RankTotal` are corollaries.
 -/
 namespace CardVerif.Betting
 open CardVerif
@@ -497,10 +503,67 @@ theorem sample_total (sm : Sampler) (deck : List Card) (k i : Nat) (hk : k ≤ d
     exact ⟨_, rfl⟩)
   exact ⟨r, hr, by rw [hl, List.length_range]⟩
 
-/-- `order_hands` on a five-card board: the ranking lists exactly the showdown seats, each once -/
-theorem orderHands_total {rankFn : RankFn} {s : State} {players : List Nat} (hb : s.board.length = 5)
+theorem add_mod_inj (c n j j' : Nat) (hj : j < n) (hj' : j' < n) (h : (c + j) % n = (c + j') % n) : j = j' := by
+  have h1 := Nat.sub_mod_eq_zero_of_mod_eq h
+  have h2 := Nat.sub_mod_eq_zero_of_mod_eq h.symm
+  have e1 : c + j - (c + j') = j - j' := by omega
+  have e2 : c + j' - (c + j) = j' - j := by omega
+  rw [e1, Nat.mod_eq_of_lt (by omega)] at h1
+  rw [e2, Nat.mod_eq_of_lt (by omega)] at h2
+  omega
+
+/-- a run-out that fits a duplicate-free deck: `k` distinct cards of the deck -/
+theorem sample_total_nodup (sm : Sampler) (deck : List Card) (k i : Nat) (hk : k ≤ deck.length) (hnd : deck.Nodup) :
+    ∃ r, sm.sample deck k i = .ok r ∧ r.length = k ∧ r.Nodup ∧ ∀ c ∈ r, c ∈ deck := by
+  have hidx : ∀ j, j < k → (sm.off + i * sm.step + j) % deck.length < deck.length :=
+    fun j hj => Nat.mod_lt _ (by omega)
+  refine ⟨(List.range k).map fun j => (deck[(sm.off + i * sm.step + j) % deck.length]?).getD ⟨0, 0⟩, ?_, ?_, ?_, ?_⟩
+  · unfold Sampler.sample
+    rw [if_neg (by omega)]
+    apply mapM_ok_map
+    intro j hj
+    rw [List.getElem?_eq_getElem (hidx j (List.mem_range.1 hj))]
+    rfl
+  · rw [List.length_map, List.length_range]
+  · apply List.Nodup.map_on _ List.nodup_range
+    intro j hj j' hj' hjj
+    rw [List.mem_range] at hj hj'
+    rw [List.getElem?_eq_getElem (hidx j hj), List.getElem?_eq_getElem (hidx j' hj'), Option.getD_some,
+      Option.getD_some, hnd.getElem_inj_iff] at hjj
+    exact add_mod_inj _ _ j j' (by omega) (by omega) hjj
+  · intro c hc
+    rw [List.mem_map] at hc
+    obtain ⟨j, hj, rfl⟩ := hc
+    rw [List.mem_range] at hj
+    rw [List.getElem?_eq_getElem (hidx j hj), Option.getD_some]
+    exact List.getElem_mem _
+
+/-- a board completed with distinct cards of the deck is still disjoint from the hand -/
+theorem nodup_board_runout {board deck runout h : List Card} (hnd : (board ++ deck ++ h).Nodup)
+    (hr : runout.Nodup) (hsub : ∀ c ∈ runout, c ∈ deck) :
+    ((board ++ runout) ++ h).Nodup ∧ ∀ c ∈ (board ++ runout) ++ h, c ∈ board ++ deck ++ h := by
+  rw [List.nodup_append] at hnd
+  obtain ⟨hbd, hh, hdisj⟩ := hnd
+  rw [List.nodup_append] at hbd
+  obtain ⟨hb, _, hbd⟩ := hbd
+  have hmem : ∀ c ∈ board ++ runout, c ∈ board ++ deck := by
+    intro c hc
+    rw [List.mem_append] at hc ⊢
+    exact hc.imp_right (hsub c)
+  refine ⟨?_, ?_⟩
+  · rw [List.nodup_append]
+    refine ⟨?_, hh, fun a ha b hb' => hdisj a (hmem a ha) b hb'⟩
+    rw [List.nodup_append]
+    exact ⟨hb, hr, fun a ha b hb' => hbd a ha b (hsub b hb')⟩
+  · intro c hc
+    rw [List.mem_append] at hc ⊢
+    exact hc.imp_left (hmem c)
+
+/-- `order_hands` on a five-card board on which the evaluator succeeds for every hand of the table:
+the ranking lists exactly the showdown seats, each once -/
+theorem orderHands_total_on {rankFn : RankFn} {s : State} {players : List Nat} (hb : s.board.length = 5)
     (hh : ∀ p ∈ players, p < s.hands.length) (hole : ∀ h ∈ s.hands, h.length = s.game.holeCards)
-    (hrank : RankTotal s.game rankFn) (hnd : players.Nodup) :
+    (hrank : ∀ h ∈ s.hands, ∃ k, rankFn s.board h = .ok k) (hnd : players.Nodup) :
     ∃ w, s.orderHands rankFn players = .ok w ∧ w.flatten.Nodup ∧ ∀ p, p ∈ w.flatten ↔ p ∈ players := by
   unfold State.orderHands
   have e1 : players.mapM (fun p => match s.hands[p]? with | some h => Except.ok h | none => .error Err.indexError)
@@ -519,7 +582,8 @@ theorem orderHands_total {rankFn : RankFn} {s : State} {players : List Nat} (hb 
       exact hole _ (List.getElem_mem _)
     unfold handStrength
     simp only [hb, hlen, bne_self_eq_false, Bool.false_eq_true, if_false]
-    exact hrank _ _ hb hlen
+    rw [List.getElem?_eq_getElem (hh p hp)]
+    exact hrank _ (List.getElem_mem _)
   obtain ⟨strengths, e2, hl2⟩ := mapM_total _ _ hstr
   rw [List.length_map] at hl2
   obtain ⟨tiers, htiers⟩ : ∃ tiers, tiers = ((sortBy (fun a b => lexLe b a) (dedupFirst strengths)).map fun k =>
@@ -565,11 +629,56 @@ theorem orderHands_total {rankFn : RankFn} {s : State} {players : List Nat} (hb 
       obtain ⟨i, hi, rfl⟩ := List.getElem_of_mem hp
       exact ⟨i, (t2 i).2 (by rw [hl2]; exact hi), by rw [List.getElem?_eq_getElem hi]; rfl⟩
 
-/-- **`get_payouts_and_rake` never fails** on a state `advance_action` can reach
-(rounding exact up to `B`, at most `B` chips on the table) -/
-theorem Mid.getPayoutsAndRake_total_B {env : Env} {cfg : Cfg} {s : State} (h : Mid cfg s) (hv : cfg.Valid)
+/-- `order_hands` on a five-card board: the ranking lists exactly the showdown seats, each once -/
+theorem orderHands_total {rankFn : RankFn} {s : State} {players : List Nat} (hb : s.board.length = 5)
+    (hh : ∀ p ∈ players, p < s.hands.length) (hole : ∀ h ∈ s.hands, h.length = s.game.holeCards)
+    (hrank : RankTotal s.game rankFn) (hnd : players.Nodup) :
+    ∃ w, s.orderHands rankFn players = .ok w ∧ w.flatten.Nodup ∧ ∀ p, p ∈ w.flatten ↔ p ∈ players :=
+  orderHands_total_on hb hh hole (fun h hm => hrank _ _ hb (hole h hm)) hnd
+
+/-- board and deck of the state hold the configured cards, in the configured order (dealing moves the top of the
+deck to the end of the board) -/
+def CardsOf (cfg : Cfg) (s : State) : Prop := s.board ++ s.deck = cfg.board ++ cfg.deck
+
+/-- the evaluator succeeds on every board `get_payouts_and_rake` can build at `s` (the state's board completed by a
+run-out sampled from its deck) and every hand of the table -/
+def RankOkAt (rankFn : RankFn) (cfg : Cfg) (s : State) : Prop :=
+  ∀ i runout, s.sampler.sample s.deck (5 - s.board.length) i = .ok runout →
+    ∀ h ∈ cfg.hands, ∃ k, rankFn (s.board ++ runout) h = .ok k
+
+/-- an evaluator that is total on all inputs is fine at every state `advance_action` goes through -/
+theorem RankOkAt.of_total {env : Env} {cfg : Cfg} {s : State} (h : Mid cfg s) (hv : cfg.Valid)
+    (hrank : RankTotal cfg.game env.rankFn) : RankOkAt env.rankFn cfg s := by
+  intro i runout e1 hd hh
+  obtain ⟨r, e1', hl⟩ := sample_total s.sampler s.deck (5 - s.board.length) i (by have := h.cards; omega)
+  rw [e1] at e1'
+  cases e1'
+  exact hrank _ _ (by rw [List.length_append, hl]; have := h.board_le; omega) (hv.hole hd hh)
+
+/-- **an evaluator that is total on distinct valid cards is fine at every state `advance_action` goes through**, when
+the cards were dealt from one deck: the run-out takes distinct cards of the deck -/
+theorem RankOkAt.of_on {env : Env} {cfg : Cfg} {s : State} (h : Mid cfg s) (hv : cfg.Valid) (hd : cfg.Dealt)
+    (hco : CardsOf cfg s) (hrank : RankTotalOn cfg.game env.rankFn) : RankOkAt env.rankFn cfg s := by
+  intro i runout e1 hand hh
+  have hnd := hd.nodup hand hh
+  rw [← hco] at hnd
+  have hdeck : s.deck.Nodup := ((List.nodup_append.1 (List.nodup_append.1 hnd).1).2).1
+  obtain ⟨r, e1', hl, hr, hsub⟩ := sample_total_nodup s.sampler s.deck (5 - s.board.length) i
+    (by have := h.cards; omega) hdeck
+  rw [e1] at e1'
+  cases e1'
+  obtain ⟨n1, n2⟩ := nodup_board_runout hnd hr hsub
+  refine hrank _ _ (by rw [List.length_append, hl]; have := h.board_le; omega) (hv.hole hand hh) n1 ?_
+  intro c hc
+  have := n2 c hc
+  rw [hco] at this
+  exact hd.valid hand hh c this
+
+/-- **`get_payouts_and_rake` never fails** on a state `advance_action` can reach where the evaluator succeeds on the
+boards it is given (rounding exact up to `B`, at most `B` chips on the table) -/
+theorem Mid.getPayoutsAndRake_total_B_at {env : Env} {cfg : Cfg} {s : State} (h : Mid cfg s) (hv : cfg.Valid)
     {B : Int} (hfl : C14.FlSpecB B env.fl) (hB : sumI cfg.startingStacks ≤ B)
-    (hrank : RankTotal cfg.game env.rankFn) :
+    (hrank : RankOkAt env.rankFn cfg s) :
     ∃ x, s.getPayoutsAndRake env = .ok x := by
   have hn : s.n = cfg.n := h.cfgOf.n
   have hpB : ∀ b ∈ s.pot, b ≤ B := fun b hb => Int.le_trans (h.chips.pot_le b hb) hB
@@ -601,7 +710,7 @@ theorem Mid.getPayoutsAndRake_total_B {env : Env} {cfg : Cfg} {s : State} (h : M
     · intro acc i _
       obtain ⟨runout, e1, hl1⟩ := sample_total s.sampler s.deck (5 - s.board.length) i
         (by have := h.cards; omega)
-      obtain ⟨w, e2, w1, w2⟩ := orderHands_total (rankFn := env.rankFn)
+      obtain ⟨w, e2, w1, w2⟩ := orderHands_total_on (rankFn := env.rankFn)
         (s := { s with board := s.board ++ runout })
         (players := (List.range s.n).filter fun p => (s.lastActions[p]?).join != some ActType.fold)
         (by simp only [List.length_append, hl1]; have := h.board_le; omega)
@@ -613,7 +722,9 @@ theorem Mid.getPayoutsAndRake_total_B {env : Env} {cfg : Cfg} {s : State} (h : M
         (by
           show ∀ h ∈ s.hands, h.length = s.game.holeCards
           rw [h.cfgOf.hands, h.cfgOf.game]; exact hv.hole)
-        (by show RankTotal s.game env.rankFn; rw [h.cfgOf.game]; exact hrank) hnd
+        (by
+          show ∀ h ∈ s.hands, ∃ k, env.rankFn (s.board ++ runout) h = .ok k
+          rw [h.cfgOf.hands]; exact hrank i runout e1) hnd
       obtain ⟨⟨pay, rake⟩, e3⟩ := settleShowdown_total_B hfl s.rake hf0 hf1 s.pot h.chips.pot_nonneg hpB w
         (State.shouldRakePot { s with board := s.board ++ runout })
         (by
@@ -630,17 +741,67 @@ theorem Mid.getPayoutsAndRake_total_B {env : Env} {cfg : Cfg} {s : State} (h : M
         rw [bind_ok]
         exact ⟨(pay, rake), e3, rfl⟩⟩
 
+/-- **`get_payouts_and_rake` never fails** on a state `advance_action` can reach
+(rounding exact up to `B`, at most `B` chips on the table) -/
+theorem Mid.getPayoutsAndRake_total_B {env : Env} {cfg : Cfg} {s : State} (h : Mid cfg s) (hv : cfg.Valid)
+    {B : Int} (hfl : C14.FlSpecB B env.fl) (hB : sumI cfg.startingStacks ≤ B)
+    (hrank : RankTotal cfg.game env.rankFn) :
+    ∃ x, s.getPayoutsAndRake env = .ok x :=
+  h.getPayoutsAndRake_total_B_at hv hfl hB (RankOkAt.of_total h hv hrank)
+
+/-- `getPayoutsAndRake_total_B` for an evaluator that is total on distinct valid cards, cards dealt from one deck -/
+theorem Mid.getPayoutsAndRake_total_B_on {env : Env} {cfg : Cfg} {s : State} (h : Mid cfg s) (hv : cfg.Valid)
+    {B : Int} (hfl : C14.FlSpecB B env.fl) (hB : sumI cfg.startingStacks ≤ B) (hd : cfg.Dealt)
+    (hco : CardsOf cfg s) (hrank : RankTotalOn cfg.game env.rankFn) :
+    ∃ x, s.getPayoutsAndRake env = .ok x :=
+  h.getPayoutsAndRake_total_B_at hv hfl hB (RankOkAt.of_on h hv hd hco hrank)
+
 /-- **`get_payouts_and_rake` never fails** on a state `advance_action` can reach -/
 theorem Mid.getPayoutsAndRake_total {env : Env} {cfg : Cfg} {s : State} (h : Mid cfg s) (hv : cfg.Valid)
     (hfl : C14.FlSpec env.fl) (hrank : RankTotal cfg.game env.rankFn) :
     ∃ x, s.getPayoutsAndRake env = .ok x :=
   h.getPayoutsAndRake_total_B hv (hfl.toB (sumI cfg.startingStacks)) (Int.le_refl _) hrank
 
-/-- **`advance_action` never fails** on a hand in progress whose state satisfies `Mid`
-(rounding exact up to `B`, at most `B` chips on the table) -/
-theorem Mid.advanceAction_total_B {env : Env} {cfg : Cfg} {s : State} (h : Mid cfg s) (hv : cfg.Valid)
+/-- moving to the next street keeps the cards: dealt cards go from the top of the deck to the end of the board -/
+theorem moveStreet_cardsOf {cfg : Cfg} {s s' : State} (h : s.moveStreet = .ok s') (hco : CardsOf cfg s) :
+    CardsOf cfg s' := by
+  rcases moveStreet_ok h with ⟨_, rfl⟩ | ⟨_, a, k, _, rfl⟩
+  · exact hco
+  · show (s.board ++ s.deck.take k) ++ s.deck.drop k = _
+    rw [List.append_assoc, List.take_append_drop]
+    exact hco
+
+/-- the street loop keeps the cards -/
+theorem streets_cardsOf {cfg : Cfg} (fuel : Nat) : ∀ {s s' : State}, State.advanceAction.streets fuel s = .ok s' →
+    CardsOf cfg s → CardsOf cfg s' := by
+  induction fuel with
+  | zero => intro s s' h; simp [State.advanceAction.streets] at h
+  | succ fuel ih =>
+    intro s s' h hco
+    unfold State.advanceAction.streets at h
+    split at h
+    · rw [bind_ok] at h
+      obtain ⟨s1, h1, h⟩ := h
+      rw [bind_ok] at h
+      obtain ⟨c, _, h⟩ := h
+      have hco1 := moveStreet_cardsOf h1 hco
+      cases c with
+      | true =>
+        simp only [if_true] at h
+        exact ih h hco1
+      | false =>
+        simp only [Bool.false_eq_true, if_false, Except.ok.injEq] at h
+        subst h
+        exact hco1
+    · cases h
+      exact hco
+
+/-- **`advance_action` never fails** on a hand in progress whose state satisfies `Mid`, when the evaluator succeeds on
+the boards of the state the street loop stops at (rounding exact up to `B`, at most `B` chips on the table) -/
+theorem Mid.advanceAction_total_B_at {env : Env} {cfg : Cfg} {s : State} (h : Mid cfg s) (hv : cfg.Valid)
     {B : Int} (hfl : C14.FlSpecB B env.fl) (hB : sumI cfg.startingStacks ≤ B)
-    (hrank : RankTotal cfg.game env.rankFn) (ha : s.action.isSome)
+    (hrank : ∀ s2, State.advanceAction.streets 6 s = .ok s2 → Mid cfg s2 → RankOkAt env.rankFn cfg s2)
+    (ha : s.action.isSome)
     (hst : s.street < 4) : ∃ s', s.advanceAction env = .ok s' := by
   rw [advanceAction_eq, h.closed]
   cases hc : s.closedSpec with
@@ -656,10 +817,26 @@ theorem Mid.advanceAction_total_B {env : Env} {cfg : Cfg} {s : State} (h : Mid c
     simp only [bind, Except.bind, Bool.not_true, Bool.false_eq_true, if_false, e2]
     unfold State.settleIfShowdown
     split
-    · obtain ⟨x, hx⟩ := m2.getPayoutsAndRake_total_B hv hfl hB hrank
+    · obtain ⟨x, hx⟩ := m2.getPayoutsAndRake_total_B_at hv hfl hB (hrank s2 e2 m2)
       rw [hx]
       exact ⟨_, rfl⟩
     · exact ⟨_, rfl⟩
+
+/-- **`advance_action` never fails** on a hand in progress whose state satisfies `Mid`
+(rounding exact up to `B`, at most `B` chips on the table) -/
+theorem Mid.advanceAction_total_B {env : Env} {cfg : Cfg} {s : State} (h : Mid cfg s) (hv : cfg.Valid)
+    {B : Int} (hfl : C14.FlSpecB B env.fl) (hB : sumI cfg.startingStacks ≤ B)
+    (hrank : RankTotal cfg.game env.rankFn) (ha : s.action.isSome)
+    (hst : s.street < 4) : ∃ s', s.advanceAction env = .ok s' :=
+  h.advanceAction_total_B_at hv hfl hB (fun _ _ m2 => RankOkAt.of_total m2 hv hrank) ha hst
+
+/-- `advanceAction_total_B` for an evaluator that is total on distinct valid cards, cards dealt from one deck -/
+theorem Mid.advanceAction_total_B_on {env : Env} {cfg : Cfg} {s : State} (h : Mid cfg s) (hv : cfg.Valid)
+    {B : Int} (hfl : C14.FlSpecB B env.fl) (hB : sumI cfg.startingStacks ≤ B) (hd : cfg.Dealt)
+    (hco : CardsOf cfg s) (hrank : RankTotalOn cfg.game env.rankFn) (ha : s.action.isSome)
+    (hst : s.street < 4) : ∃ s', s.advanceAction env = .ok s' :=
+  h.advanceAction_total_B_at hv hfl hB
+    (fun _ e2 m2 => RankOkAt.of_on m2 hv hd (streets_cardsOf 6 e2 hco) hrank) ha hst
 
 /-- **`advance_action` never fails** on a hand in progress whose state satisfies `Mid` -/
 theorem Mid.advanceAction_total {env : Env} {cfg : Cfg} {s : State} (h : Mid cfg s) (hv : cfg.Valid)
@@ -872,6 +1049,39 @@ theorem advanceAction_total_of_reachable_B {env : Env} (hw : env.w = World.std) 
   have m1 := appendAction_mid hv hi.inv hi.mid h1
   exact m1.advanceAction_total_B hv hfl hB hrank (by rw [t1.action]; exact hi.inv.action_some hc)
     (by rw [t1.street]; exact hi.street_lt hc)
+
+/-- the card invariant of reachable states gives `CardsOf` -/
+theorem Cards.cardsOf {cfg : Cfg} {s : State} (h : Cards cfg s) : CardsOf cfg s := by
+  obtain ⟨j, h1, h2⟩ := h.split
+  unfold CardsOf
+  rw [h1, h2, List.append_assoc, List.take_append_drop]
+
+/-- **an accepted action is carried through `advance_action` without any error**, for an evaluator that is total on
+distinct valid cards when the cards were dealt from one deck
+(rounding exact up to `B`, at most `B` chips on the table) -/
+theorem advanceAction_total_of_reachable_B_on {env : Env} (hw : env.w = World.std) {B : Int}
+    (hfl : C14.FlSpecB B env.fl) {cfg : Cfg} (hv : cfg.Valid) (hB : sumI cfg.startingStacks ≤ B) (hd : cfg.Dealt)
+    (hrank : RankTotalOn cfg.game env.rankFn) {s s1 : State} (h : Reachable env cfg s)
+    {p : Int} {ty : Option ActType} {amt : Option Int} (h1 : s.appendAction env.w p ty amt = .ok s1) :
+    ∃ s', s1.advanceAction env = .ok s' := by
+  have hi := reachable_inv2 hw hv h
+  have hco : CardsOf cfg s := (reachable_cards hw hv h).cardsOf
+  rw [hw] at h1
+  have hc := (appendAction_ok.1 h1).1
+  obtain ⟨_, t1, _⟩ := appendAction_frame h1
+  have m1 := appendAction_mid hv hi.inv hi.mid h1
+  have hco1 : CardsOf cfg s1 := by unfold CardsOf; rw [t1.board, t1.deck]; exact hco
+  exact m1.advanceAction_total_B_on hv hfl hB hd hco1 hrank (by rw [t1.action]; exact hi.inv.action_some hc)
+    (by rw [t1.street]; exact hi.street_lt hc)
+
+/-- **an accepted action is carried through `advance_action` without any error**, for an evaluator that is total on
+distinct valid cards when the cards were dealt from one deck -/
+theorem advanceAction_total_of_reachable_on {env : Env} (hw : env.w = World.std) (hfl : C14.FlSpec env.fl) {cfg : Cfg}
+    (hv : cfg.Valid) (hd : cfg.Dealt) (hrank : RankTotalOn cfg.game env.rankFn) {s s1 : State}
+    (h : Reachable env cfg s)
+    {p : Int} {ty : Option ActType} {amt : Option Int} (h1 : s.appendAction env.w p ty amt = .ok s1) :
+    ∃ s', s1.advanceAction env = .ok s' :=
+  advanceAction_total_of_reachable_B_on hw (hfl.toB (sumI cfg.startingStacks)) hv (Int.le_refl _) hd hrank h h1
 
 /-- **an accepted action is carried through `advance_action` without any error** -/
 theorem advanceAction_total_of_reachable {env : Env} (hw : env.w = World.std) (hfl : C14.FlSpec env.fl) {cfg : Cfg}
